@@ -421,7 +421,7 @@ class C03Gen(langgen.Gen):
 
     # ---- more than 64 locals of a nested function interleaved with the enclosing function's locals
     def t_many_locals(self, ind):
-        if not self.can_fn() or self.r.random() < 0.7:
+        if not self.can_fn() or self.r.random() < 0.85:
             return None
         r, pad = self.r, "  " * ind
         g = self.fresh("f")
@@ -686,6 +686,18 @@ def run_planok(env, name, recs, order):
             fi = rs.index("F")
             res[cur] = {"checked": parts[0] == "1", "stmts": ent(parts[1]), "fns": ent(parts[2]),
                         "residual": (rs[1:fi], rs[fi + 1:])}
+        elif l.startswith("verdict2 ") and cur is not None and res.get(cur):
+            parts = [p.strip() for p in l[9:].split("|")]
+            ent = lambda s: [tuple(x.split(":")) for x in s.split()] if s else []
+            rs = parts[2].split()
+            fi = rs.index("F")
+            c1, c2 = parts[0].split()
+            v = res[cur]
+            v["checked2"] = (c1 == "1", c2 == "1")
+            v["residual2"] = (rs[1:fi], rs[fi + 1:])
+            aug = dict(ent(parts[1]))
+            # an entry the plain classifier leaves to the oracle but the augmented plan covers
+            v["stmts"] = [(i, "N2" if (k == "NM" and aug.get(i) == "N") else k) for i, k in v["stmts"]]
     return res
 
 
@@ -711,9 +723,13 @@ def judge(cid, src, rec, mrec, verdict, out, known_key=None):
     fails = []
     crash = rec.get("crash")
     if crash and crash[0] == "frontend":
-        out["failures"].append({"key": known_key if known_key == KEY_BITSET else KEY_BITSET + "/" + common.chash(src)[:8]
-                                if "liveness" not in (crash[2] or "") else KEY_BITSET,
-                                "case": src, "observed": "front end crashed (%s): %s" % (crash[1], (crash[2] or "")[-200:])})
+        text = crash[2] or ""
+        if known_key == KEY_BITSET or "liveness.rs" in text:
+            key = KEY_BITSET
+        else:
+            key = "analysis-crashes-front-end/" + common.chash(src)[:8]
+        out["failures"].append({"key": key, "kind": "front-end-crash", "case": src,
+                                "observed": "front end crashed (%s): %s" % (crash[1], text[-200:])})
         return
     if not rec.get("accepted"):
         out["rejected"] += 1
@@ -824,6 +840,12 @@ def judge(cid, src, rec, mrec, verdict, out, known_key=None):
         if verdict["stmts"] or verdict["fns"]:
             if not verdict["residual"][0] and not verdict["residual"][1]:
                 out["plans_fully_covered"] += 1
+            r2 = verdict.get("residual2")
+            if r2 is not None and not r2[0] and not r2[1] and all(verdict.get("checked2", (False, False))):
+                out["plans_fully_covered2"] = out.get("plans_fully_covered2", 0) + 1
+        if "checked2" in verdict and not all(verdict["checked2"]):
+            out["disagreements"].append({"stream": "plan_ok2-hypothesis-fails", "case": src,
+                                         "detail": "covered_ok (main, augmented) = %s for plan %s" % (verdict["checked2"], plan)})
         if not verdict["checked"]:
             out["disagreements"].append({"stream": "plan_ok-hypothesis-fails", "case": src,
                                          "detail": "covered_ok is false for plan %s: the classifier's own configuration is not accepted by the verified checker" % plan})
@@ -853,7 +875,19 @@ def run_stream(env, name, cases, out, model=True, keys=None):
     recs = langrun.run_impl(env, name, cases, CFGS, timeout=1200)
     mrecs, verdicts = {}, {}
     if model:
-        mrecs = langrun.run_model(env, name, recs, order)
+        # a program on which the implementation itself died natively or timed out in the plan-less run
+        # (resource exhaustion, e.g. a string doubled in nested loops) is not handed to the model
+        morder = []
+        for cid in order:
+            r = recs.get(cid)
+            if r is None:
+                continue
+            e = r.get("runs", {}).get("nn", ("", ""))[0]
+            if r.get("crash") or e.startswith("crash") or e == "timeout" or "Stack_overflow" in e:
+                out["resource_exhaustion"] = out.get("resource_exhaustion", 0) + 1
+                continue
+            morder.append(cid)
+        mrecs = model_robust(env, name, recs, morder, out)
         verdicts = run_planok(env, name, recs, order)
     for cid in order:
         rec = recs.get(cid)
@@ -863,6 +897,22 @@ def run_stream(env, name, cases, out, model=True, keys=None):
         judge(cid, srcs[cid], rec, mrecs.get(cid) if model else None, verdicts.get(cid) if model else None, out,
               known_key=(keys or {}).get(cid))
     return recs
+
+
+def model_robust(env, name, recs, order, out, depth=0):
+    """langrun.run_model, isolating a case on which the model executable itself dies (native stack)"""
+    if not order:
+        return {}
+    try:
+        return langrun.run_model(env, "%s.m%d.%d" % (name, depth, len(order)) if depth else name, recs, order)
+    except RuntimeError:
+        if len(order) == 1:
+            out["model_executable_died"] = out.get("model_executable_died", 0) + 1
+            return {}
+        h = len(order) // 2
+        a = model_robust(env, name + "a", recs, order[:h], out, depth + 1)
+        a.update(model_robust(env, name + "b", recs, order[h:], out, depth + 1))
+        return a
 
 
 def shrink(env, f):
@@ -925,7 +975,7 @@ def correspond(env, searching=False, model=True):
                 pass
             shrunk.append(1)
         f.pop("kind", None) if False else None
-    covered = sum(v for k, v in out["classes"].items() if k in ("U", "N", "UF"))
+    covered = sum(v for k, v in out["classes"].items() if k in ("U", "N", "N2", "UF"))
     total = sum(out["classes"].values())
     samples = [{"id": cid, "program": s} for cid, s in cases[:3]]
     return {
@@ -939,16 +989,19 @@ def correspond(env, searching=False, model=True):
         "failures": out["failures"],
         "disagreements": out["disagreements"],
         "extra": {"accepted": out["accepted"], "rejected_by_checker": out["rejected"], "plans_nonempty": out["plans_nonempty"],
-                  "plans_fully_covered_by_theorems": out["plans_fully_covered"], "plan_verdicts": out["verdicts"],
+                  "plans_fully_covered_by_theorems": out["plans_fully_covered"],
+                  "plans_fully_covered_with_augmented_plan": out.get("plans_fully_covered2", 0), "plan_verdicts": out["verdicts"],
                   "plan_entry_classes": out["classes"],
                   "plan_entries_total": total, "plan_entries_covered_by_a_theorem": covered,
                   "plan_entries_covered_by_oracle_only": total - covered,
                   "class_legend": {"U": "unreachable (theorem)", "N": "never-read local, total right-hand side (theorem)", "UF": "unused function (theorem)",
-                                   "NM": "never read, but declaration kept or right-hand side may raise Type mismatch (oracle only)",
+                                   "N2": "never-read local whose declaration the analysis keeps (theorem C03_plan_ok2_sound: via the augmented plan)",
+                                   "NM": "never read, but some writer has a right-hand side that is not a total pure expression (oracle only)",
                                    "DS": "dead store by flow-sensitive liveness (oracle only)", "DC": "dead store with calls (oracle only)",
                                    "X": "no class: broken obligation", "XF": "function live code can call: broken obligation"},
                   "model_compare": out["compare"], "warnings": out["warn"], "unreachable_tags_checked": out["tags_checked"],
                   "never_read_value_tags_checked": out["values_checked"], "panics_in_both_configurations": out["panics_both"],
+                  "not_compared_resource_exhaustion": out.get("resource_exhaustion", 0), "model_executable_died": out.get("model_executable_died", 0),
                   "generator_stats": gstats, "template_stats": tstats, "configurations": CFGS},
     }
 
